@@ -29,7 +29,7 @@ CHECKS = {
  "C01": dict(level="exploration", ref="DESIGN.md section 4 (C01)",
    text="The simulator owns the collection schedule: every generated heap-shape program (retention chains root -> edges -> target in which the chain is the only path to the target, over catalogues of 19 edge kinds, 17 target kinds and 18 root kinds incl. suspended/calling/dropped fibers, open captured variables, module attributes, values in flight through finally/unwinding; plus 39 operations that make the interpreter hold fresh objects mid-operation) runs under never-collect (reference), collect-at-every-allocation and a PRNG collection tape, with reclaimed objects quarantined so that every dereference of a prematurely reclaimed object and every access through an open captured variable into a reclaimed fiber stack is recorded. Oracle: zero use-after-reclaim events, identical histories across schedules, no panic. The schedule dimension is closed by dominance (collect-always sees what any schedule can see); heap shapes are sampled: evidence, not proof.",
    note="Trusted: the verif_hooks quarantine and monitor (add-only hooks in memory.rs/object.rs); a premature reclaim is only visible if the program touches the object again (every gadget reads its target back); real free() is not exercised.",
-   technique="deterministic simulation: simulator-owned GC schedule (never/always/tape) with quarantine, use-after-reclaim monitor on every managed dereference, differential history comparison against the never-collect run"),
+   technique="deterministic simulation: simulator-owned GC schedule (never/always/tape) with quarantine, use-after-reclaim monitor on every managed dereference, no-object-reclaimed-while-borrowed invariant at every sweep, differential history comparison against the never-collect run"),
  "C12": dict(level="exploration", ref="DESIGN.md section 4 (C12)",
    text="Seeded search over operation histories (literal construction incl. duplicate and unhashable keys, insert, remove, get, has_key, clear, len, keys, values, items) on 1-3 maps whose keys are built at run time in different ways so that equal keys are distinct objects and are referenced only by the map, crossed with the collection schedule (every allocation, and a PRNG tape) under quarantine so that a key or value the map fails to keep alive is an observable use-after-reclaim; also the plain release build. Every operation result is compared with an association-list model keyed by the language's ==, enumerations as multisets. A clean batch is evidence, not proof.",
    note="Trusted: the abstract map model and its == ; the verif_hooks quarantine/monitor; the runner's value encoding.",
@@ -47,7 +47,7 @@ CHECKS = {
    note="Trusted: the coroutine reference model and the runner's printer seam. Error classes of illegal transfers are implementation-confirmed; where two error conditions hold at once either class is accepted.",
    technique="deterministic simulation: seeded scheduler owning every fiber transfer via a host-native decision tape, coroutine reference model, history equality across build profiles"),
  "C08": dict(level="fault_enumeration", ref="DESIGN.md section 4 (C08)",
-   text="Seeded generation of handler nests; within each nest every single-fault placement on the fault-free path is enumerated (each dynamic fault point fails once, kinds rotating over all host ErrorKinds and 12 failing built-in operations) plus sampled multi-fault plans aimed at recovery code; every plan is executed by the real compiler+VM in the checked and the release profile and compared event-by-event with a reference interpreter built on Python's own try/except/finally. Evidence, not proof: nests are sampled.",
+   text="Seeded generation of handler nests; within each nest every single-fault placement on the fault-free path is enumerated (each dynamic fault point fails once, kinds rotating over all host ErrorKinds and 23 failing built-in operations) plus sampled multi-fault plans aimed at recovery code; every plan is executed by the real compiler+VM in the checked and the release profile and compared event-by-event with a reference interpreter built on Python's own try/except/finally. Evidence, not proof: nests are sampled.",
    note="Trusted: the Python reference semantics; the runner's printer seam; scenarios in the region of an open known finding are not generated or are executed without comparison (counted in the evidence).",
    technique="deterministic simulation with fault injection: PRNG-chosen fault plans injected through a host-native fault point, reference-model trace equality, single-fault enumeration per nest"),
 }
@@ -73,7 +73,7 @@ def main():
         if pid not in CHECKS and pid not in NA:
             na.append({"property_id": pid, "reason": "claimed in DESIGN.md; its check is not registered yet (under construction) - not claimed until it is"})
     na.sort(key=lambda e: e["property_id"])
-    commits = subprocess.run(["git", "-C", "/repo", "log", "--format=%h %s", "--grep=^verif hooks"], stdout=subprocess.PIPE, text=True).stdout.strip().splitlines()
+    commits = subprocess.run(["git", "-C", "/repo", "log", "--format=%h %s", "--grep=^verif[ _]hooks"], stdout=subprocess.PIPE, text=True).stdout.strip().splitlines()
     doc = {
         "version": 1,
         "setup_cmd": "python3 -m sim.build checked release checked+hooks release+hooks release+safe_active_fiber+debug_stress_gc",
